@@ -128,19 +128,55 @@ def rule_suitesparse(ctx, repo):
 VALIDATES_SYMBOLIC = {"UMFPACKSolver": True, "KLUSolver": False}
 
 
+def _sound_pattern_guard(repo, ci, fn):
+    """the (re)computation of the symbolic factor in `fn` depends on a comparison of A's index structure with the one the cached
+    factor was computed for: (i) some value derived from A.CCS / A.I / A.J (possibly through a helper of the class) is compared for
+    equality with cached state (np.array_equal / == / a helper doing so), (ii) the outcome reaches the condition of the `_symbolic`
+    call (directly or through the `factorize` flag), (iii) the cached state is written together with the new symbolic factor."""
+    def reads_index(node, depth=2):
+        for x in ast.walk(node):
+            if isinstance(x, ast.Attribute) and x.attr in ("CCS", "I", "J"):
+                return True
+            if depth and isinstance(x, ast.Call) and (dotted(x.func) or "").startswith("self."):
+                m = (dotted(x.func) or "")[5:]
+                for c in repo.mro(ci.name, ci.path):
+                    if m in c.methods and reads_index(c.methods[m], depth - 1):
+                        return True
+        return False
+
+    def compares(node, depth=2):
+        for x in ast.walk(node):
+            if isinstance(x, ast.Call) and dotted(x.func) in ("np.array_equal", "np.array_equiv", "np.all", "all"):
+                return True
+            if isinstance(x, ast.Compare) and any(isinstance(o, (ast.Eq, ast.NotEq)) for o in x.ops):
+                return True
+            if depth and isinstance(x, ast.Call) and (dotted(x.func) or "").startswith("self."):
+                m = (dotted(x.func) or "")[5:]
+                for c in repo.mro(ci.name, ci.path):
+                    if m in c.methods and compares(c.methods[m], depth - 1):
+                        return True
+        return False
+    pat_names = {t.id for st in walk_noscope(fn) if isinstance(st, ast.Assign) and reads_index(st.value)
+                 for t in st.targets if isinstance(t, ast.Name)}
+    tests = [t for t in ast.walk(fn) if isinstance(t, ast.If) and compares(t.test) and
+             (reads_index(t.test) or any(isinstance(x, ast.Name) and x.id in pat_names for x in ast.walk(t.test)))]
+    sets_flag = any(isinstance(x, ast.Assign) and dotted(x.targets[0]) == "self.factorize" and src(x.value) == "True"
+                    for t in tests for b_ in t.body for x in ast.walk(b_)) or \
+        any(isinstance(x, ast.Call) and dotted(x.func) == "self._symbolic" for t in tests for b_ in t.body for x in ast.walk(b_))
+    stores = any(isinstance(st, ast.Assign) and (dotted(st.targets[0]) or "").startswith("self.") and
+                 any(isinstance(x, ast.Name) and x.id in pat_names for x in ast.walk(st.value)) for st in walk_noscope(fn))
+    return bool(tests) and sets_flag and stores
+
+
 def rule_pattern_guard(ctx, repo):
-    """a back-end whose numeric factorisation does not validate the cached symbolic factor needs a pattern guard."""
+    """a back-end whose numeric factorisation does not validate the cached symbolic factor needs a (sound) pattern guard."""
     f = F.method(repo, "SuiteSparseSolver", "solve", SS)
-    text = src(f.fn)
-    guard = any(k in text for k in (".CCS", ".I", ".J", "_pattern", "pattern_changed", "nnz"))
+    base = repo.cls("SuiteSparseSolver", SS)
+    guard = _sound_pattern_guard(repo, base, f.fn)
     for cls, validates in sorted(VALIDATES_SYMBOLIC.items()):
         ci = repo.cls(cls, SS)
         own = "solve" in ci.methods
-        if own:
-            t2 = src(ci.methods["solve"])
-            g2 = any(k in t2 for k in (".CCS", ".I", ".J", "_pattern", "pattern_changed", "nnz"))
-        else:
-            g2 = guard
+        g2 = _sound_pattern_guard(repo, ci, ci.methods["solve"]) if own else guard
         ctx.check(validates or g2, "C16.stale-symbolic", cls,
                   "cached symbolic factor is validated against the pattern (by the library or by a guard)",
                   "solve() reuses the cached symbolic factor self.F whenever `factorize` is not set, and %s's numeric "
